@@ -676,28 +676,55 @@ func concBytes(cells []value) ([]byte, bool) {
 	return b, true
 }
 
-// hashCells models a collision-free hash: concrete input → real digest;
-// symbolic input → an opaque digest blob whose equality is equality of inputs.
+// hashCells models a collision-free hash. A concrete input gives the real
+// digest. A symbolic input gives a fresh symbolic digest value hv (a span of
+// `width` bytes) constrained, against every other digest computed on this
+// path with the same function, by  hv = hv'  <=>  input = input'.
 func hashCells(fr *frame, name string, width int, cells []value, real func([]byte) []byte) []value {
-	if b, ok := concBytes(cells); ok {
-		return bytesToCells(real(b))
-	}
+	p := fr.p
+	reg, _ := p.hostState["hashes"].([]*hashObj)
 	cp := make([]value, len(cells))
 	copy(cp, cells)
-	out := make([]value, width)
-	h := &hashObj{name: name, input: cp}
-	for i := range out {
-		out[i] = hashByte{h: h, idx: i}
+	if b, ok := concBytes(cells); ok {
+		d := real(b)
+		h := &hashObj{name: name, input: cp, val: IntConst(new(big.Int).SetBytes(d))}
+		if len(reg) < 64 {
+			p.hostState["hashes"] = append(reg, h)
+		}
+		return bytesToCells(d)
 	}
-	return out
+	p.floatVars++
+	hv := VarRange(fmt.Sprintf("hash!%d", p.floatVars), big0, new(big.Int).Sub(pow2(uint(8*width)), big1))
+	h := &hashObj{name: name, input: cp, val: hv}
+	for _, o := range reg {
+		if o.name != name {
+			continue
+		}
+		var same *Term
+		if len(o.input) != len(cp) && !anyBlob(cp) && !anyBlob(o.input) {
+			same = tFalse
+		} else {
+			sv := eqCells(fr, cp, o.input)
+			switch x := sv.(type) {
+			case bool:
+				same = BoolConst(x)
+			case *Term:
+				same = x
+			}
+		}
+		p.assume(Eq(Eq(hv, o.val), same))
+	}
+	p.hostState["hashes"] = append(reg, h)
+	return beCells(hv, width)
 }
 
 type hashObj struct {
 	name  string
 	input []value
+	val   *Term
 }
 
-// hashByte is byte idx of the digest of a symbolic input.
+// hashByte is retained for cells.go (no longer produced).
 type hashByte struct {
 	h   *hashObj
 	idx int
